@@ -121,6 +121,8 @@ def parseCons : Sexp → Option Cons
       | .list [w, d] => (parsePeekOp d).map (fun op => (w.atom? == some "c", op))
       | _ => none)
     pure (.peekCopy pre post)
+  | .list [.atom "entry", per, pre, mode] => do
+    pure (.entry (per.atom? == some "1") (← pre.nat?) (← mode.nat?))
   | .list (.atom "peekops" :: ops) =>
     (ops.mapM (fun (o : Sexp) => match o.atom? with
       | some "n" => some PeekOp.next
